@@ -181,7 +181,7 @@ func (d *driver) runChunk(spec PhaseSpec, wi int, from, to uint64, deadline time
 		out := filepath.Join(d.outDir, fmt.Sprintf("%s-w%d-%d.json", spec.Name, wi, from))
 		prog := filepath.Join(d.outDir, fmt.Sprintf("%s-w%d.progress", spec.Name, wi))
 		os.Remove(prog)
-		world := filepath.Join(d.env.ScratchS, "worlds", fmt.Sprintf("%s-w%d", spec.Name, wi))
+		world := worldDir(d.env.ScratchS, fmt.Sprintf("%s-w%d", spec.Name, wi))
 		args := append([]string{"worker"}, d.commonArgs()...)
 		args = append(args, "-prop", d.prop, "-phase", spec.Name, "-from", fmt.Sprint(from), "-to", fmt.Sprint(to), "-out", out, "-world", world, "-progress", prog, "-deadline", fmt.Sprint(deadline.Unix()), "-sigmod", fmt.Sprint(d.sigMod))
 		if spec.Sweep {
@@ -336,7 +336,7 @@ func (d *driver) childReplay(file string, race bool, tag string) (int, string) {
 	if race {
 		bin = d.env.RaceBin
 	}
-	world := filepath.Join(d.env.ScratchS, "worlds", "replay-"+tag)
+	world := worldDir(d.env.ScratchS, "replay-"+tag)
 	args := append([]string{"replay"}, d.commonArgs()...)
 	args = append(args, "-file", file, "-world", world)
 	cmd := exec.Command(bin, args...)
@@ -576,6 +576,13 @@ func checkMain(args []string) int {
 	return 0
 }
 
+// worldDir names a private world directory. Every world path has the same
+// length, so that results which embed absolute paths (JSON documents written
+// over stale files, for instance) do not depend on who ran the run.
+func worldDir(scratch, tag string) string {
+	return filepath.Join(scratch, "worlds", fmt.Sprintf("%08x", uint32(hashStr(tag))))
+}
+
 func maxReported() int {
 	if os.Getenv("VORESIM_MAXSHRINK") != "" {
 		return 200
@@ -624,7 +631,7 @@ func (d *driver) determinismSelfTest() map[string]any {
 			go func(r int) {
 				defer wg.Done()
 				hl := filepath.Join(d.outDir, fmt.Sprintf("det-%s-%d.log", spec.Name, r))
-				world := filepath.Join(d.env.ScratchS, "worlds", fmt.Sprintf("det-%s-%d", spec.Name, r))
+				world := worldDir(d.env.ScratchS, fmt.Sprintf("det-%s-%d", spec.Name, r))
 				args := append([]string{"hashlog"}, d.commonArgs()...)
 				args = append(args, "-prop", d.prop, "-phase", spec.Name, "-n", fmt.Sprint(m), "-out", hl, "-world", world)
 				cmd := exec.Command(bin, args...)
@@ -702,7 +709,7 @@ func gentapeMain(args []string) int {
 		prefix = c.SweepPrefix(*phase, *index)
 	}
 	t := NewTape(rs, prefix)
-	world := filepath.Join(env.ScratchS, "worlds", "gentape")
+	world := worldDir(env.ScratchS, "gentape")
 	os.MkdirAll(world, 0755)
 	res := executeRun(c, *phase, *index, t, world, map[string]uint64{}, true)
 	return b2i(writeJSON(*out, map[string]any{"tape": t.Rec, "desc": res.Desc}) != nil)
@@ -724,7 +731,7 @@ func describeMain(args []string) int {
 	if err := c.Init(env); err != nil {
 		return 2
 	}
-	world := filepath.Join(env.ScratchS, "worlds", "describe")
+	world := worldDir(env.ScratchS, "describe")
 	os.MkdirAll(world, 0755)
 	res := executeRun(c, rf.Phase, rf.Index, ReplayTape(rf.Tape), world, map[string]uint64{}, true)
 	return b2i(writeJSON(*out, map[string]any{"desc": res.Desc}) != nil)
